@@ -170,6 +170,7 @@ func c14(c *core.Check) {
 	c14pooledBuffer(c)
 	c14nilStorage(c)
 	c14blackStar(c)
+	c14descUnwrapped(c)
 }
 
 // newPathTokenTotal: the panic in newPathToken's default arm is unreachable: every call passes a constant pathType that
